@@ -273,9 +273,33 @@ static LinkedList *bufr_expand_desc( int desc, int flags, BUFR_Tables *tbls, int
       return NULL;
       }
 
+/*
+ * a replication inside a Table D sequence must be closed within the sequence: 
+ * once the sequence is spliced into a template an open span would swallow 
+ * whatever happens to follow it
+ */
+   count = etblD->count;
+   for (i = 0; i < count ; i++ )
+      {
+      code = etblD->descriptors[i];
+      if (DESC_TO_F( code ) == 1)
+         {
+         int span = DESC_TO_X( code ) + ((DESC_TO_Y( code ) == 0) ? 1 : 0);
+         if (i + span >= count)
+            {
+            char errmsg[256];
+
+            if (errflg) *errflg = 1;
+            sprintf( errmsg, _("Error: replication %d runs past the end of Table D sequence %d\n"), 
+                  code, desc );
+            bufr_print_debug( errmsg );
+            return NULL;
+            }
+         }
+      }
+
    lst = lst_newlist();
 
-   count = etblD->count;
    for (i = 0; i < count ; i++ )
       {
       code = etblD->descriptors[i];
